@@ -56,22 +56,25 @@ def explicit_case(draw):
     elif btype == "form":
         c["body"] = draw(st.dictionaries(st.text(alphabet="ab@$'", min_size=1, max_size=3), SHELLY, max_size=2))
         c["media_type"] = "application/x-www-form-urlencoded"
+    # output sanitisation on and credentials in the base URL: only the redacted values may differ in the printed command
+    if draw(st.integers(0, 3)) == 0:
+        c["userinfo"] = draw(st.sampled_from(["usr:pw", "usr:p%40ss", "admin:s3cret"]))
     return c
 
 
 _state: dict = {}
 
 
-def _schema(url):
+def _schema(url, sanitize=False):
     import schemathesis
     from schemathesis.core.output import OutputConfig
 
-    if _state.get("url") != url:
+    if _state.get("url") != (url, sanitize):
         params = [{"name": "q", "in": "query", "schema": {"type": "string"}}, {"name": "id", "in": "path", "required": True, "schema": {"type": "string"}}, {"name": "X-H", "in": "header", "schema": {"type": "string"}}, {"name": "ck", "in": "cookie", "schema": {"type": "string"}}]
         body = {"content": {"application/json": {"schema": {}}, "text/plain": {"schema": {"type": "string"}}, "application/x-www-form-urlencoded": {"schema": {"type": "object"}}}}
         doc = {"openapi": "3.0.2", "info": {"title": "t", "version": "1"}, "paths": {"/u/{id}": {m: {"parameters": params, **({"requestBody": body} if m != "get" else {}), "responses": {"200": {"description": "ok"}}} for m in ("get", "post", "put", "delete", "patch")}}}
-        _state["schema"] = schemathesis.openapi.from_dict(doc).configure(base_url=url, output=OutputConfig(sanitize=False))
-        _state["url"] = url
+        _state["schema"] = schemathesis.openapi.from_dict(doc).configure(base_url=url, output=OutputConfig(sanitize=sanitize))
+        _state["url"] = (url, sanitize)
     return _state["schema"]
 
 
@@ -106,9 +109,10 @@ def check_explicit(ctx: Ctx, inp) -> None:
     from vfw.harness import loopback
 
     server = loopback.shared()
-    schema = _schema(server.url)
+    userinfo = inp.get("userinfo")
+    schema = _schema(server.url.replace("http://", f"http://{userinfo}@") if userinfo else server.url, sanitize=bool(userinfo))
     op = schema["/u/{id}"][inp["method"]]
-    kwargs = {k: v for k, v in inp.items() if k != "method"}
+    kwargs = {k: v for k, v in inp.items() if k not in ("method", "userinfo")}
     case = op.Case(**kwargs)
     try:
         response = case.call()
@@ -116,6 +120,11 @@ def check_explicit(ctx: Ctx, inp) -> None:
         ctx.inconclusive_case("case could not be sent by requests")
         return
     command = case.as_curl_command(headers=dict(response.request.headers))
+    if userinfo:
+        if userinfo.split(":")[1] in command:
+            ctx.disagree("explicit:sanitized-command-shows-the-password", f"{command}"[:300], input=inp)
+        # put the redacted userinfo back; the Cookie / Authorization headers stay redacted and are left out of the comparison
+        command = command.replace("[Filtered]@", userinfo + "@").replace("%5BFiltered%5D@", userinfo + "@")
     texts = [str(v) for part in ("path_parameters", "query", "headers", "cookies") for v in (inp.get(part) or {}).values()] + [repr(inp.get("body", ""))]
     nontrivial = any(set(t) & SIGNIFICANT for t in texts)
     if "\x00" in command:
@@ -129,7 +138,11 @@ def check_explicit(ctx: Ctx, inp) -> None:
         ctx.disagree(sig, f"{len(log) - 1} replayed requests (curl exit {done.returncode}, {done.stderr.decode()[:120]!r}); command: {command}"[:600], input=inp, command=command)
         return
     explicit_ct = "content-type" in {k.lower() for k in response.request.headers}
-    compare(ctx, log[0], log[1], explicit_ct, inp, command, "explicit")
+    if userinfo:
+        for rec in log:
+            rec.headers = [(k, v) for k, v in rec.headers if k.lower() not in ("cookie", "authorization")]
+        ctx.classes["explicit:sanitized-with-userinfo"] += 1
+    compare(ctx, log[0], log[1], explicit_ct, inp, command, "explicit" + (":sanitized" if userinfo else ""))
 
 
 # ---- Python API: the command printed in the failure message ------------------------------------------------------
